@@ -11,7 +11,7 @@ Case lines (shared with harness/c11):
 op syntax (comma separated):
   shb,o<t>,<n> | q,o<t> | dest,o<t> | clone,o<new>,<kind>,<n> | err | flag | hbs | take,o<item>
   cerr (error inside catch) | reload,o<t>,<n> (reload_object; create() does set_heart_beat(n)) | living (enable_commands)
-  | burn (use up evaluation cost)
+  | burn (use up evaluation cost) | rp (replace_program by the inherited program without heart_beat)
   tflags <n>                                MAIN_OPTION (timer_flags) = n
 o0 = blueprint /c11/obj (has heart_beat), o1 = blueprint /c11/nohb (no heart_beat function); both always loaded.
 -/
@@ -41,6 +41,7 @@ def parseOp (s : String) : Option Op :=
   | ["reload", t, n] => do some (.reload (← parseOid t) (← n.toInt?))
   | ["living"] => some .living
   | ["burn"] => some .burn
+  | ["rp"] => some .rp
   | _ => none
 
 def oid (o : Nat) : String := s!"o{o}"
@@ -80,6 +81,9 @@ def render : Ev → String
   | .burn o => s!"r burn {oid o}"
   | .tickOff => "tickbegin off"
   | .tflags n => s!"tflags {n}"
+  | .rp o => s!"r rp {oid o}"
+  | .rpNone o => s!"r rp {oid o} !none"
+  | .rpDone o => s!"rpdone {oid o}"
   | .junk s => s
 
 def parseOids (s : String) : Option (List Nat) :=
@@ -131,6 +135,9 @@ def parseEv (line : String) : Ev :=
     | ["r", "burn", o] => do some (.burn (← parseOid o))
     | ["tickbegin", "off"] => some .tickOff
     | ["tflags", n] => do some (.tflags (← n.toInt?))
+    | ["r", "rp", o] => do some (.rp (← parseOid o))
+    | ["r", "rp", o, "!none"] => do some (.rpNone (← parseOid o))
+    | ["rpdone", o] => do some (.rpDone (← parseOid o))
     | _ => none
   match r with
   | some e => e
